@@ -42,7 +42,7 @@ CHECKS = {
         "pass/fail classification, AP). TLC checks results = TP+FP, ground-truth conservation (TP / FN / TN / matched FP exactly once), TP "
         "justification, nothing-outside-critical and AP <= 1 in every state over families of configurations x lattice scenes; every terminated "
         "state is replayed through a real PerceptionEvaluationManager with objects stored in base_link and in map under two ego poses and the "
-        "object results, critical ground truth, the four pass/fail lists, get_num_success/fail and AP rows are compared with the specification.",
+        "object results, critical ground truth, the four pass/fail lists, get_num_success/fail and AP rows are compared with the specification. Executions of the real manager on random centimetre-lattice scenes of up to 8 x 8 objects (both storage frames) are recorded step by step and validated by TLC against the same machine (Trace_Pipeline.tla).",
         note="lattice scenes (equal aligned boxes, bounds in odd half units); frame configs use the manager's target list; float scenes: see DESIGN (engine T for the pipeline)",
         design="DESIGN.md 5 (C03)",
         technique="TLA+ spec + TLC (exhaustive slices + RandomSubset sampling of the product); spec->code replay in two frame renderings",
@@ -52,7 +52,7 @@ CHECKS = {
         text="The specification (Manager.tla) is frame-free: scenes are ego-relative. Every scene TLC enumerates is executed by the real manager with "
         "objects stored in base_link and stored in map (ego poses: quarter turn + km translation; yaw 0.7 rad); map executions must be behaviours "
         "of the same specification, and where the specification admits one outcome the two executions are compared field by field (filtering, "
-        "matching, TP/FP/FN/TN, AP, APH).",
+        "matching, TP/FP/FN/TN, AP, APH). Random pairs of different extent / heading are scored in both storage frames and validated by Trace_Scores.tla; executions on random 8 x 8 scenes stored in map are validated by Trace_Pipeline.tla; a lookup-then-evaluate scenario with a moving ego compares both storage frames.",
         note="no decision within tolerance of its boundary (lattice design); tracking metrics across frames are covered by C05/C13 drivers",
         design="DESIGN.md 5 (C07)",
         technique="TLA+ spec + TLC; spec->code replay in ego and map renderings + direct differential comparison",
@@ -111,7 +111,7 @@ CHECKS = {
         "pair by equal label (and uuid when uuid-first) then by uuid, as the SET of admissible outcomes of the label stage; scores as exact "
         "rationals. TLC checks same-camera, each-object-once, label-stage maximality, scores within [0,1] and the perfect case over sampled inputs "
         "(<= 3 objects per side, 3 uuids, 3 labels, 3 cameras incl. cam_traffic_light, both uuid-first settings); each state is replayed through "
-        "get_object_results(CLASSIFICATION2D), ClassificationAccuracy and ClassificationMetricsScore._summarize.",
+        "get_object_results(CLASSIFICATION2D), ClassificationAccuracy and ClassificationMetricsScore._summarize. The same inputs are run through PerceptionEvaluationManager in the classification2d task (frame pairs, scores, two-frame scene).",
         note="uuids unique per side and camera; undefined scores may be any non-finite value (the library mixes inf and nan)",
         design="DESIGN.md 5 (C11)",
         technique="TLA+ spec + TLC; spec->code replay of every state",
@@ -172,7 +172,7 @@ CHECKS = {
         "checks frame / object counts and ego<->map consistency; each dataset is written as a T4/nuScenes directory (13 json tables; LIDAR_TOP or "
         "LIDAR_CONCAT; visibility by level name or v0-40 alias) and loaded by the real load_all_datasets for detection / tracking / sensing x "
         "base_link / map x merge, compared field by field; random float datasets (5-20 samples) are loaded in both frames and checked for "
-        "structure and ego->map consistency.",
+        "structure and ego->map consistency. The 2-D reading of the tables (Dataset2D.tla: cameras with / without data, object_ann in table order, ROI truncation, traffic-light regulatory-element merging) is model-checked and replayed on generated nuImages tables for the three 2-D tasks.",
         note="lidar calibrated at the ego origin; lattice poses exact to 1e-9, random poses to 1e-6; 3-D loader only (2-D nuImages loading not modelled)",
         design="DESIGN.md 5 (C16)",
         technique="TLA+ spec + TLC; spec->code replay through generated dataset directories",
@@ -207,7 +207,7 @@ CHECKS = {
         "confusion counts of paired rows, the ground truths tabulated twice). The histories of MC_ManagerHist carry that table and TLC checks "
         "per-status counts = list sizes, ground-truth rows = critical ground truths and the as-built count identity in every state; each history "
         "is evaluated by a real manager (base_link and map rendering; one and two scenes), tabulated by PerceptionAnalyzer3D and compared: num_* "
-        "properties, rows, ego-frame positions, x / y / yaw errors, rates in [0,1], confusion entries and sum, get_object_status.",
+        "properties, rows, ego-frame positions, x / y / yaw errors, rates in [0,1], confusion entries and sum, get_object_status. Areas.tla (1 / 3 / 9 partition, get_area_idx, extract_area_results) is model-checked and replayed; analyzer yaw errors of headings on / off the +-pi cut are validated by Trace_Heading.tla; restricted analyses must leave table and frames unchanged.",
         note="equal headings, area division 1; two known-finding signatures (ground truth matched by a failing estimate counted twice)",
         design="DESIGN.md 5 (C19)",
         technique="TLA+ spec over call histories + TLC exhaustive; spec->code replay of every history through the analyzer",
